@@ -151,10 +151,13 @@ def oracle(ctx, sp, p, res, label):
             if best <= tol:
                 continue
             if cs['t'] == 'MS':
-                with np.errstate(all='ignore'):
-                    cship = R.c_ref(cs, r, gin, u, R.snap(sig, r), ms='shipped')
-                    es = np.abs(cship - cr[:, i, j])[mask]
-                if np.all(es <= tol):
+                shipped = False
+                for gg in ((gin, gin_t) if i != j else (gin,)):
+                    with np.errstate(all='ignore'):
+                        cship = R.c_ref(cs, r, gg, u, R.snap(sig, r), ms='shipped')
+                        es = np.abs(cship - cr[:, i, j])[mask]
+                    shipped |= bool(np.all(es <= tol))
+                if shipped:
                     ctx.violation('closure:MS-shipped-form', 'converged solution satisfies the shipped MartynovSarkisov expression, not the Martynov-Sarkisov relation')
                     continue
             with np.errstate(all='ignore'):
